@@ -326,8 +326,20 @@ impl Check for C04 {
                         let path = PathSpec::new(ops);
                         for cap in 0..3u8 {
                             let join = cap;
-                            let st = StyleSpec { width: 4.0, cap, join, miter: 4.0, dash: vec![], offset: 0. };
-                            account(run, 5000 + s, l, &path, &st, &IDENT, false);
+                            // width 8: the caps are deep enough for interior pixels beyond the margin
+                            for width in [4.0f32, 8.0] {
+                                let st = StyleSpec { width, cap, join, miter: 4.0, dash: vec![], offset: 0. };
+                                account(run, 5000 + s, l, &path, &st, &IDENT, false);
+                            }
+                        }
+                        // the open subpath last, and two open subpaths
+                        let ops2 = vec![POp::M(g3[d].0, g3[d].1), POp::L(g3[e].0, g3[e].1), POp::L(f.0, f.1), POp::Z, POp::M(a.0, a.1), POp::L(b.0, b.1), POp::L(g3[c].0, g3[c].1)];
+                        let ops3 = vec![POp::M(a.0, a.1), POp::L(b.0, b.1), POp::M(g3[d].0, g3[d].1), POp::L(g3[e].0, g3[e].1), POp::L(f.0, f.1)];
+                        for ops in [ops2, ops3] {
+                            for cap in 1..3u8 {
+                                let st = StyleSpec { width: 8.0, cap, join: 1, miter: 4.0, dash: vec![], offset: 0. };
+                                account(run, 5000 + s, l, &PathSpec::new(ops.clone()), &st, &IDENT, false);
+                            }
                         }
                     }
                 }
@@ -346,6 +358,14 @@ impl Check for C04 {
                     let st = StyleSpec { width: 4.0, cap, join, miter: 4.0, dash: vec![], offset: 0. };
                     let path = PathSpec::new(vec![POp::M(a.0, a.1), POp::Q(b.0, b.1, c.0, c.1)]);
                     account(run, 7000 + s, l, &path, &st, &IDENT, s == 12 && c.0 == 30. && cap == 0);
+                    // rotations near and at a quarter turn, an axis swap, a shear, anisotropic scale
+                    for xf in [[0.0f32, 1., -1., 0., 36., 0.], [0.0348995, 0.99939084, -0.99939084, 0.0348995, 35., 0.], [0., 1., 1., 0., 0., 0.], [1., 0., 0.8, 1., -12., 0.], [0.5, 0., 0., 2., 9., -18.]] {
+                        if q && (s + cap as usize) % 2 == 1 {
+                            continue;
+                        }
+                        let path = PathSpec::new(vec![POp::M(a.0, a.1), POp::Q(b.0, b.1, c.0, c.1)]);
+                        account(run, 7000 + s, l, &path, &st, &xf, false);
+                    }
                     if !q {
                         for d in &cp {
                             let path = PathSpec::new(vec![POp::M(a.0, a.1), POp::C(b.0, b.1, c.0, c.1, d.0, d.1)]);
